@@ -349,6 +349,22 @@ def run_derived(spec, res):
     xmlschema = env.activate_repo()
     from lxml import etree
     rng = env.rng_for(PROPERTY, spec['tier'], spec['seed'], 'derived', spec['dshard'])
+    if spec['dshard'] == 0:
+        # order of the member types of a union: those named by memberTypes first, then the anonymous children; the first
+        # member that accepts the text decides the value
+        for first, second, text, want in (('xs:string', 'xs:int', '1', str), ('xs:int', 'xs:string', '1', int),
+                                          ('xs:boolean', 'xs:int', '1', bool), ('xs:int', 'xs:boolean', '1', int)):
+            xsd = (f'<xs:schema xmlns:xs="{XS}"><xs:element name="e"><xs:simpleType><xs:union memberTypes="{first}">'
+                   f'<xs:simpleType><xs:restriction base="{second}"/></xs:simpleType></xs:union></xs:simpleType></xs:element></xs:schema>')
+            for version, cls in (('1.0', xmlschema.XMLSchema10), ('1.1', xmlschema.XMLSchema11)):
+                got = cls(xsd).decode(f'<e>{text}</e>')
+                res.evaluations += 1
+                res.count('union_member_order:compared')
+                if type(got) is not want:
+                    res.violation('union-member-order:memberTypes-attribute-after-anonymous-children',
+                                  {'schema': xsd, 'text': text, 'version': version},
+                                  f'{version}: union memberTypes="{first}" + anonymous {second}: {text!r} decoded to {got!r} '
+                                  f'({type(got).__name__}), the first member gives {want.__name__}')
     for i in range(spec['n']):
         kind = rng.choice(('int', 'decimal', 'double', 'string', 'token', 'date', 'list', 'union', 'hex', 'tz', 'ws'))
         facets1, facets2 = gen_facets(kind, rng), gen_facets(kind, rng)
@@ -534,20 +550,25 @@ def build_derived(kind, f1, f2, rng):
                  'QName': ['', 'a', 'a p:b', 'a  p:b\tc', 'a b c d', 'p:a p:b p:c p:d p:e', 'a q:b', 'a 1b', ' p:a ', 'a:b:c', 'a b'],
                  'NMTOKEN': ['', 'a', 'a 1', '1  2\t3', 'a b c d', 'a b c d e', 'a b,c', 'a (b)', ' -x '],
                  'boolean': ['', 'true', '1 0', 'true  false\t1', '1 0 1 0', '1 0 1 0 1', 'true yes', 'TRUE', ' 0 ']}[item]
+        # a no-break space (or another Unicode space) separates nothing: it is part of an item, which no item type here admits
+        texts = texts + [texts[2].replace(' ', '\u00a0'), texts[2].replace(' ', '\u2003') + ' ' + texts[1]]
         return xsd, chk, texts
     if kind == 'union' and rng.random() < 0.4:
         # a pattern on a restriction of a union: it applies to the text as normalised by the member type that accepts
         # it (xs:string preserves whitespace, xs:int collapses it)
         pat = rng.choice(list(PY_PATTERNS))
+        # (half of the time a second restriction step with a pattern of its own: the steps are and-ed)
+        pat2 = rng.choice(list(PY_PATTERNS)) if rng.random() < 0.5 else None
+        step2 = (f'<xs:simpleType name="R2"><xs:restriction base="R"><xs:pattern value="{esc(pat2)}"/></xs:restriction></xs:simpleType>'
+                 if pat2 else '')
         xsd = (f'<xs:schema xmlns:xs="{XS}"><xs:simpleType name="U"><xs:union memberTypes="xs:int xs:string"/></xs:simpleType>'
                f'<xs:simpleType name="R"><xs:restriction base="U"><xs:pattern value="{esc(pat)}"/></xs:restriction></xs:simpleType>'
-               f'<xs:element name="e" type="R"/></xs:schema>')
+               f'{step2}<xs:element name="e" type="{"R2" if pat2 else "R"}"/></xs:schema>')
 
         def chk(t, version):
             n = DT.normalize('int', t)
-            if DT.lexical_ok('int', n, version):
-                return bool(re.fullmatch(PY_PATTERNS[pat], n))
-            return bool(re.fullmatch(PY_PATTERNS[pat], t))
+            text = n if DT.lexical_ok('int', n, version) else t
+            return bool(re.fullmatch(PY_PATTERNS[pat], text)) and (pat2 is None or bool(re.fullmatch(PY_PATTERNS[pat2], text)))
         texts = ['ab', 'ab ', ' ab', 'a b', 'ab  c', 'abc', 'axc', 'a\tc', '12', ' 12 ', '123', '1234', 'x', ' x ', 'x\n', 'bc', 'a', '', 'bbb', 'ccc ']
         return xsd, chk, texts
     if kind == 'union':
@@ -580,7 +601,7 @@ def build_derived(kind, f1, f2, rng):
             v = Decimal(int(n)) if bt == 'int' else Decimal(n)
             return numeric_facets_ok(f1, v, n, kind) and numeric_facets_ok(f2, v, n, kind)
         texts = ['0', '1', '02', '7', '-5', '-6', '5', '6', '20', '21', '100', '1.0', '2.50', '2.5', '7.00', '0.001', '1e1', ' 7 ', '1_0',
-                 '+7', '12.34', '123', '1234', '.5', '-0.0']
+                 '+7', '12.34', '123', '1234', '.5', '-0.0', '0.0000000', '0.000', '7.0000000', '10.00', '0.0100']
         return xsd, chk, texts
     if kind == 'double':
         def chk(t, version):
